@@ -56,7 +56,9 @@ Definition tbatch_of (b : MP.batch) : tbatch :=
   {| tb_n := Z.to_nat (MP.b_n b);
      tb_cols := map (fun c => (fst c, cdata_of (fst (snd c)))) (MP.b_cols b) |}.
 
-(* a row record as rowsToColumnar reads it *)
+(* a row record as rowsToColumnar reads it.  When the columns of a group end up with different
+   lengths (a field named "time") the record count credited to the buffer is the length of
+   whichever column Go's map iteration visits first; the model takes the time column's. *)
 Record rowrec := { rr_ts : Z; rr_fields : list (bytes * MP.gval); rr_tags : list (bytes * MP.tagv) }.
 
 Definition bmem (k : bytes) (l : list bytes) : bool := existsb (beqb k) l.
